@@ -185,6 +185,18 @@ Proof.
     eapply quorum_of_mono; [|exact C1]. apply (sent_grows (LDeliver j m :: tl) g).
 Qed.
 
+(* every decision reported along a rewind-free execution is backed by a commit quorum: at least 2f+1
+   distinct committee members, every honest one of which has itself broadcast a commit for exactly
+   that round and root, and the reported value hashes to that root *)
+Theorem reported_decisions_have_quorum vs tr :
+  valid_trace c0 byz (no_rewind c0) (init c0 h vs) tr ->
+  forall i d, In (i, d) (reports c0 (init c0 h vs) tr) ->
+    exists rr, CQ (sent (run_sys c0 (init c0 h vs) tr)) rr (c_root (co d)) /\ hash (c_full (co d)) = c_root (co d).
+Proof.
+  intros Hv i d Hin. destruct (run_Inv tr _ (Inv_init vs) Hv) as [_ Hrep].
+  destruct (Hrep i d Hin) as (rr & rho & C & R & Hh). exists rr. subst rho. auto.
+Qed.
+
 Lemma hash_inj a b : hash a = hash b -> a = b.
 Proof. destruct a as [x|], b as [y|]; unfold hash; intros E; try lia; [|reflexivity]. f_equal. lia. Qed.
 
@@ -205,3 +217,27 @@ Proof.
 Qed.
 
 End Safety.
+
+(* Instances of different heights do not interact: a message for another height is refused by the
+   instance and leaves it untouched (every validity predicate compares the height first; signatures
+   cover it). *)
+Lemma other_height_refused c s m :
+  can_process s = true -> c_height (co m) <> s_height s -> c_type (co m) <= T_ROUNDCHANGE ->
+  process_msg c s m = (s, [], PErr).
+Proof.
+  intros Hc Hh Ht. unfold process_msg. rewrite Hc. cbn [negb].
+  assert (Hv : base_msg_validation c s m = Some false).
+  { unfold base_msg_validation.
+    destruct (signed_validate (co m)); cbn [negb]; [|reflexivity].
+    destruct (c_round (co m) <? s_round s); [reflexivity|].
+    assert (Hne : (c_height (co m) =? s_height s) = false) by (apply N.eqb_neq; exact Hh).
+    destruct (N.eqb_spec (c_type (co m)) T_PROPOSAL) as [E0|E0].
+    - unfold valid_proposal. rewrite E0, Hne. reflexivity.
+    - destruct (N.eqb_spec (c_type (co m)) T_PREPARE) as [E1|E1].
+      + destruct (s_acc s); [|reflexivity]. unfold valid_prepare. rewrite E1, Hne. reflexivity.
+      + destruct (N.eqb_spec (c_type (co m)) T_COMMIT) as [E2|E2].
+        * destruct (s_acc s); [|reflexivity]. unfold validate_commit, base_commit_validation. rewrite E2, Hne. reflexivity.
+        * destruct (N.eqb_spec (c_type (co m)) T_ROUNDCHANGE) as [E3|E3]; [|reflexivity].
+          unfold valid_round_change. rewrite E3, Hne. reflexivity. }
+  rewrite Hv. reflexivity.
+Qed.
